@@ -10,7 +10,7 @@ from ..models import ModelEval, PyObj, Marker, Raised
 from ..peval import Model, Unsupported, ProgramRaised
 from ..poly import Poly, Rat, Fn
 from ..source import AnalysisError
-from .array_folds import DT, issubdtype, can_cast
+from .array_folds import DT, issubdtype, can_cast, isscalar
 from .core_models import ARRAY_Q, VECTOR_Q
 
 ERR = (Unsupported, AnalysisError)
@@ -470,6 +470,7 @@ def stack_hooks(tree):
         hk["ext"]["numpy." + name] = AFunc(name, tree, hk)
     hk["ext"]["numpy.issubdtype"] = issubdtype
     hk["ext"]["numpy.can_cast"] = can_cast
+    hk["ext"]["numpy.isscalar"] = isscalar
 
     def _const(value):
         def make(shape, dtype=None, **k):
@@ -698,6 +699,10 @@ def check_array_stack(run, tree, only=None):
         ("a ** -1.0, int64 data", lambda t, h, a: binop(t, h, a, "__pow__", -1.0), lambda pa: rat(1) / pa),
         ("a ** 2, int64 data", lambda t, h, a: binop(t, h, a, "__pow__", 2), lambda pa: pa * pa),
         ("2 / a, int64 data", lambda t, h, a: binop(t, h, a, "__rtruediv__", 2), lambda pa: rat(2) / pa),
+        # a fractional python number against integer data is the number itself (never cast to the data's integer type first)
+        ("a * 2.5, int64 data", lambda t, h, a: binop(t, h, a, "__mul__", 2.5), lambda pa: pa * rat(5) / rat(2)),
+        ("a / 2.5, int64 data", lambda t, h, a: binop(t, h, a, "__truediv__", 2.5), lambda pa: pa * rat(2) / rat(5)),
+        ("2.5 * a, int64 data", lambda t, h, a: binop(t, h, a, "__rmul__", 2.5), lambda pa: pa * rat(5) / rat(2)),
     ]
     for label, do, want in (extra if only is None else []):
         construct = "core/array.py::Array[%s]" % label
@@ -735,6 +740,22 @@ def check_array_stack(run, tree, only=None):
             except (Raised, ProgramRaised) as e:
                 ok, detail = False, "raises %s" % e
             run.ob(construct, ok, fi.where(), detail, "%s compares raw numbers in different units, or the result carries a unit" % label)
+        except ERR as e:
+            run.unresolved(construct, fi.where(), "cannot fold: %s" % e)
+    # integer data (levels, cpu numbers) against a fractional bare number: level < 2.5 compares with 2.5
+    for label, dunder, kind in (("a [dimensionless, int64 data] < 2.5", "__lt__", "lt"), ("a [dimensionless, int64 data] >= 2.5", "__ge__", "ge"), ("a [dimensionless, int64 data] == 2.5", "__eq__", "eq")):
+        construct = "core/array.py::Array[%s]" % label
+        try:
+            hk = stack_hooks(tree)
+            a = arr(tree, hk, "A", "dimensionless", dtype="int64")
+            try:
+                r = binop(tree, hk, a, dunder, 2.5)
+                v, u = r._attrs.get("_array"), r._attrs.get("_unit")
+                ok = isinstance(v, RawV) and isinstance(v.r, tuple) and v.r[0] == kind and v.r[1] == A - rat(5) / rat(2) and isinstance(u, UU) and not u.mono
+                detail = "compares %r %s 0, labelled %r" % (v.r[1] if isinstance(v, RawV) and isinstance(v.r, tuple) else v, kind, u)
+            except (Raised, ProgramRaised) as e:
+                ok, detail = False, "raises %s" % e
+            run.ob(construct, ok, fi.where(), detail, "%s: the number is rounded to the integer type of the data before the comparison (level < 2.5 selects level < 2)" % label)
         except ERR as e:
             run.unresolved(construct, fi.where(), "cannot fold: %s" % e)
     for label, dunder, want in () if only else (("a [m] += b [cm]", "__iadd__", lambda: A * km + B * kcm), ("a [m] *= b [s]", "__imul__", lambda: A * km * B * ks)):
